@@ -897,7 +897,7 @@ def oracle(ctx):
     oracle_programs(ctx, ctx.budget(110, 1100), n_proc=ctx.budget(2, 10))
     # the op families behind the modelled key functions, more densely
     dense = ["repeat", "flip", "index", "take", "concat", "roll", "tile", "pad", "stack", "unstack", "reduce", "argreduce",
-             "cumulative", "reshape", "rechunk", "matmul", "searchsorted"]
+             "cumulative", "reshape", "rechunk", "matmul", "searchsorted", "vecdot", "tensordot", "where"]
     oracle_programs(ctx, ctx.budget(90, 900), families=dense + ["binary", "unary"], tag="dense")
     _close_pool()
     ctx.notes.append("timing: oracle total %.0fs" % (ctx.elapsed() - t0))
